@@ -649,7 +649,9 @@ def rule_heading(rep: Report, repo: Repo, rule: str) -> None:
             doc_init_ok = True
         if isnone is False:
             got_chars = st_.get("heading_level_chars")
-            got_hc = st_.get("header_char")
+            # on *every* path with configured headers: once one path deviates it stays recorded
+            if got_hc is None or got_hc == ("sub", HEADERS, ("sym", "section_level")):
+                got_hc = st_.get("header_char")
     rep.check(got_hc == ("sub", HEADERS, ("sym", "section_level")), rule, f"{MOD}:RSTWriter.__init__",
               f"self.header_char = {show(got_hc) if got_hc else None}",
               "the heading character is not the configured header list indexed by section_level",
@@ -882,3 +884,35 @@ def rule_file_is_rendered_text(rep: Report, repo: Repo, rule: str) -> None:
                       "the output file is opened with a lossy error handler or a newline translation: characters of the doc text are "
                       "replaced or dropped on the way to the disk")
     rep.floor(rule, 2, "write calls")
+
+
+def rule_options_persist(rep: Report, repo: Repo, rule: str) -> None:
+    """Options handed to a directive are emitted in every later serialisation - also after clear(), which empties the content
+    (everything behind the heading) only: the option list is written by the constructor and by option(), by nothing else."""
+    import ast
+    rep.rule(rule, "a directive's option list is only ever written by __init__ and option(): no other method (clear(), to_text(), "
+                   "the title setter ...) empties, replaces or reorders it")
+    n = 0
+    for cname in ("Directive", "RSTWriter"):
+        ci = repo.cls(cname)
+        for mname, fn in ci.methods.items():
+            self_name = fn.args.args[0].arg if fn.args.args else "self"
+            for node in ast.walk(fn):
+                hit = None
+                if isinstance(node, ast.Call) and isinstance(node.func, ast.Attribute) and isinstance(node.func.value, ast.Attribute) \
+                        and norm(node.func.value) == f"{self_name}.options" \
+                        and node.func.attr in ("clear", "pop", "remove", "insert", "sort", "reverse", "extend", "append", "__delitem__"):
+                    hit = norm(node)
+                if isinstance(node, (ast.Assign, ast.AugAssign, ast.AnnAssign, ast.Delete)):
+                    tgts = node.targets if isinstance(node, (ast.Assign, ast.Delete)) else [node.target]
+                    for t in tgts:
+                        base = t.value if isinstance(t, ast.Subscript) else t
+                        if norm(base) == f"{self_name}.options":
+                            hit = norm(node)
+                if hit is None:
+                    continue
+                n += 1
+                rep.check(mname in ("__init__", "option"), rule, f"{MOD}:{cname}.{mname}", hit[:70],
+                          f"{cname}.{mname} changes the directive's option list: options added earlier are missing (or moved) in the "
+                          f"next serialisation", witness="d.option('maxdepth', 2); d.clear(); str(document)")
+    rep.floor(rule, 2, "writes to the option list")
